@@ -165,6 +165,101 @@ static void model_smtp(const SmtpConf &cf, const std::string &in, const std::vec
   }
 }
 
+
+// ---------------------------------------------------------------------------------------------- QMTP / QMQP reference
+// Written from the protocol descriptions (netstrings; QMTP packages of message, sender, recipient list with one reply per
+// recipient; QMQP one package with one reply) and the limits the daemons document (databytes, 1000-byte addresses, NUL).
+struct NtOut {
+  std::string cls;                 // expected class byte (K/Z/D) of each reply netstring, in order
+  std::vector<size_t> pkg_of;      // package index of each reply
+  std::vector<QMsg> msgs;          // messages that must be committed, in order
+  std::vector<size_t> msg_pkg;     // package index of each message
+  enum End { NORMAL, CUT, MALFORMED, ALARM } end = NORMAL;
+  size_t packages = 0;
+};
+static char qq_class(int qq_code, const std::string &qq_text) {
+  if (qq_code == 0) return 'K';
+  if (qq_code == 82 && qq_text.size() > 2) return qq_text[0];
+  return ((qq_code >= 11 && qq_code <= 40) || qq_code == 115) ? 'D' : 'Z';
+}
+struct NtIn {
+  const std::string &in; size_t i = 0, limit; bool alarm; NtOut &M; bool dead = false; bool boundary = false;
+  bool use_left = false; unsigned long left = 0;   // QMQP: bytes left in the outer netstring
+  NtIn(const std::string &s, size_t lim, bool al, NtOut &m) : in(s), limit(lim), alarm(al), M(m) {}
+  bool fail(NtOut::End e) { if (!dead) { dead = true; M.end = e; } return false; }
+  bool get(int &c) {
+    if (dead) return false;
+    if (use_left) { if (!left) return fail(NtOut::MALFORMED); left--; }
+    if (i >= limit) return fail(alarm ? NtOut::ALARM : (boundary ? NtOut::NORMAL : NtOut::CUT));
+    c = (unsigned char)in[i++]; boundary = false; return true;
+  }
+  bool getlen(unsigned long &len) { len = 0; int c; for (;;) { if (!get(c)) return false; if (c == ':') return true; if (len > 200000000 || c < '0' || c > '9') return fail(NtOut::MALFORMED); len = 10 * len + (unsigned long)(c - '0'); } }
+  bool comma() { int c; if (!get(c)) return false; if (c != ',') return fail(NtOut::MALFORMED); return true; }
+  bool bytes(unsigned long n, std::string &out) { out.clear(); int c; for (unsigned long q = 0; q < n; q++) { if (!get(c)) return false; out += (char)c; } return true; }
+};
+
+static void model_qmtp(const SmtpConf &cf, const std::string &in, size_t limit, bool alarm, int qq_code, const std::string &qq_text, NtOut &M) {
+  NtIn r(in, limit, alarm, M);
+  for (;;) {
+    unsigned long len; r.boundary = true;
+    if (!r.getlen(len)) return;
+    r.boundary = false;
+    if (len == 0) { r.fail(NtOut::MALFORMED); return; }
+    int c; if (!r.get(c)) return; --len;
+    bool dos; if (c == 10) dos = false; else if (c == 13) dos = true; else { r.fail(NtOut::MALFORMED); return; }
+    std::string raw; if (!r.bytes(len, raw)) return;
+    std::string body;
+    if (dos) { for (size_t q = 0; q < raw.size(); q++) { if (raw[q] == '\r' && q + 1 < raw.size() && raw[q + 1] == '\n') continue; body += raw[q]; } } else body = raw;
+    bool toobig = cf.databytes && body.size() > cf.databytes;
+    if (!r.comma()) return;
+    unsigned long slen; if (!r.getlen(slen)) return;
+    std::string sender; if (!r.bytes(slen, sender)) return;
+    bool senderok = slen < 1000 && sender.find('\0') == std::string::npos;
+    if (!r.comma()) return;
+    unsigned long big; if (!r.getlen(big)) return;
+    std::vector<std::string> accepted; std::string bad;   // per recipient: 0 fine, 'D' refused
+    while (big > 0) {
+      unsigned long l = 0;
+      for (;;) { if (!big) { r.fail(NtOut::MALFORMED); return; } if (!r.get(c)) return; --big; if (c == ':') break; if (l > 200000000 || c < '0' || c > '9') { r.fail(NtOut::MALFORMED); return; } l = 10 * l + (unsigned long)(c - '0'); }
+      if (l >= big) { r.fail(NtOut::MALFORMED); return; }
+      std::string a; if (!r.bytes(l, a)) return;
+      char b = 0;
+      if (l + (cf.relayclient ? cf.relaysuffix.size() : 0) >= 1000) b = 'D';
+      else if (a.find('\0') != std::string::npos) b = 'D';
+      else if (!cf.relayclient && !model_allowed(cf, a)) b = 'D';
+      bad += b; if (!b) accepted.push_back(a + (cf.relayclient ? cf.relaysuffix : std::string()));
+      if (!r.comma()) return;
+      big -= l + 1;
+    }
+    if (!r.comma()) return;
+    char pk = !senderok ? 'D' : toobig ? 'D' : qq_class(qq_code, qq_text);
+    for (char b : bad) { M.cls += b ? 'D' : pk; M.pkg_of.push_back(M.packages); }
+    if (pk == 'K' && !accepted.empty()) { QMsg m; m.sender = sender; m.rcpts = accepted; m.body = body; m.body_quirk = body; M.msgs.push_back(m); M.msg_pkg.push_back(M.packages); }
+    M.packages++;
+  }
+}
+
+static void model_qmqp(const std::string &in, size_t limit, bool alarm, int qq_code, const std::string &qq_text, NtOut &M) {
+  NtIn r(in, limit, alarm, M);
+  r.use_left = true; r.left = 100;
+  unsigned long total; if (!r.getlen(total)) return;
+  r.left = total;
+  unsigned long len; if (!r.getlen(len)) return;
+  std::string body; if (!r.bytes(len, body)) return;
+  if (!r.comma()) return;
+  bool ok = true;
+  auto getbuf = [&](std::string &out, bool &good) -> bool { unsigned long l; if (!r.getlen(l)) return false; if (!r.bytes(l, out)) return false; if (!r.comma()) return false; good = l < 1000 && out.find('\0') == std::string::npos; return true; };
+  std::string sender; bool good; if (!getbuf(sender, good)) return; if (!good) ok = false;
+  std::vector<std::string> rc;
+  while (r.left) { std::string a; if (!getbuf(a, good)) return; if (!good) ok = false; else rc.push_back(a); }
+  r.left = 1; if (!r.comma()) return;
+  char pk = !ok ? 'D' : qq_class(qq_code, qq_text);
+  M.cls += pk; M.pkg_of.push_back(0);
+  if (pk == 'K') { QMsg m; m.sender = sender; m.rcpts = rc; m.body = body; m.body_quirk = body; M.msgs.push_back(m); M.msg_pkg.push_back(0); }
+  M.packages = 1;
+  // anything after the outer netstring is never read
+}
+
 struct WorldSI : World, Net {
   QmailTree t; SmtpConf cf;
   std::string daemon = "smtpd";
@@ -209,7 +304,7 @@ struct WorldSI : World, Net {
     if (e.has("RELAYCLIENT")) { cf.relayclient = true; cf.relaysuffix = e.gets("RELAYCLIENT"); }
     if (e.has("DATABYTES")) cf.databytes = strtoull(e.gets("DATABYTES").c_str(), 0, 10);
     if (plan->knobs.has("qq")) { use_stub = true; const Json &q = plan->knobs["qq"]; qq_code = (int)q.geti("code", 0); qq_text = q.gets("text"); qq_read_all = q.getb("read_all", true); }
-    for (auto &f : plan->faults) if (f.actor.compare(0, 11, "qmail-smtpd") == 0) daemon_fault = true;
+    for (auto &f : plan->faults) if (f.actor.compare(0, 11, "qmail-smtpd") == 0 || f.actor.compare(0, 10, "qmail-qmtp") == 0 || f.actor.compare(0, 10, "qmail-qmqp") == 0) daemon_fault = true;
   }
 
   int qq_main() {
@@ -300,7 +395,68 @@ struct WorldSI : World, Net {
     return v;
   }
 
+
+  // QMTP / QMQP: replies are netstrings starting with K, Z or D
+  void finish_nt() {
+    size_t limit = tx.size(); bool alarm = false;
+    for (auto &st : stalls) if (st.second >= 3600 && st.first <= limit) { limit = st.first; alarm = true; }
+    NtOut M; if (daemon == "qmtpd") model_qmtp(cf, tx, limit, alarm, use_stub ? qq_code : 0, qq_text, M); else model_qmqp(tx, limit, alarm, use_stub ? qq_code : 0, qq_text, M);
+    res->nontrivial = !tx.empty(); k->probe("nt_packages", M.packages); k->probe(std::string("nt_end_") + (M.end == NtOut::NORMAL ? "normal" : M.end == NtOut::CUT ? "cut" : M.end == NtOut::MALFORMED ? "malformed" : "alarm"));
+    std::string tr = "client sent \"" + printable(tx, 300) + "\"; server said \"" + printable(rx, 300) + "\"";
+    if (!daemon_done) { violate("C07.server-hung", "qmail-" + daemon + " still running after the client closed the connection; " + tr); return; }
+    // --- replies
+    std::vector<std::string> got; { size_t i = 0; while (i < rx.size()) { size_t c = rx.find(':', i); unsigned long l = 0; bool okn = c != std::string::npos && c > i && c - i < 10; if (okn) for (size_t q = i; q < c; q++) { if (!isdigit((unsigned char)rx[q])) okn = false; else l = l * 10 + (unsigned long)(rx[q] - '0'); }
+        if (!okn || c + 1 + l >= rx.size() || rx[c + 1 + l] != ',') { violate("C07.nt-reply-format", "the server's output is not a sequence of netstrings at offset " + std::to_string(i) + "; " + tr); return; }
+        got.push_back(rx.substr(c + 1, l)); i = c + 2 + l; } }
+    for (auto &g : got) if (g.empty() || !strchr("KZD", g[0])) { violate("C07.nt-reply-format", "reply \"" + printable(g, 60) + "\" does not start with K, Z or D; " + tr); return; }
+    // a fault inside the real qmail-queue may turn an acceptance into a temporary failure: then nothing may be queued for that package
+    if (plan->knobs.getb("real_qq_fault", false)) for (size_t j = 0; j < got.size() && j < M.cls.size(); j++) if (M.cls[j] == 'K' && got[j][0] == 'Z') {
+      size_t pk = M.pkg_of[j]; for (size_t q = 0; q < M.cls.size(); q++) if (M.pkg_of[q] == pk && M.cls[q] == 'K') M.cls[q] = 'Z';
+      for (size_t q = 0; q < M.msgs.size(); q++) if (M.msg_pkg[q] == pk) { M.msgs.erase(M.msgs.begin() + (long)q); M.msg_pkg.erase(M.msg_pkg.begin() + (long)q); break; }
+    }
+    size_t n = std::min(got.size(), M.cls.size());
+    for (size_t j = 0; j < n; j++) if (got[j][0] != M.cls[j]) { violate("C07.nt-reply", "reply " + std::to_string(j + 1) + " (package " + std::to_string(M.pkg_of[j] + 1) + ") is \"" + printable(got[j], 80) + "\", the reference answers class " + std::string(1, M.cls[j]) + "; " + tr); return; }
+    if (got.size() > M.cls.size()) { violate("C07.nt-reply", std::to_string(got.size()) + " replies, the reference gives " + std::to_string(M.cls.size()) + "; " + tr); return; }
+    // after a framing error the daemon may leave at once, and replies still buffered are lost with it; in every other ending all replies arrive
+    if (got.size() < M.cls.size() && M.end != NtOut::MALFORMED) { violate("C07.nt-reply", "only " + std::to_string(got.size()) + " of " + std::to_string(M.cls.size()) + " replies arrived; " + tr); return; }
+    // --- exit status
+    { int code = (daemon_status >> 8) & 0xff, sig = daemon_status & 0x7f; // (after bad framing the daemons may also misread the rest and simply run into the end of input: the property asks for no acknowledgement and nothing queued, not for a status)
+      bool okx = sig == 0 && (M.end == NtOut::MALFORMED ? (code == 100 || code == 111 || code == 0) : M.end == NtOut::ALARM ? code == 111 : code == 0);
+      if (!okx) { violate("C07.nt-exit", "qmail-" + daemon + " ended with status " + std::to_string(code) + (sig ? " signal " + std::to_string(sig) : "") + ", the reference ends " + (M.end == NtOut::MALFORMED ? "100/111 (bad framing)" : M.end == NtOut::ALARM ? "111 (alarm)" : "0") + "; " + tr); return; } }
+    // --- what reached the queue
+    std::vector<QMsg> q = queued;
+    if (use_stub) { q.clear(); if (qq_code == 0) for (auto &st : stub_streams) { QMsg m; const std::string &ev = st.second; bool complete = ev.size() >= 3 && ev[0] == 'F' && ev[ev.size() - 1] == 0 && ev[ev.size() - 2] == 0; if (!complete) continue;
+        size_t i = 0; while (i < ev.size()) { size_t z = ev.find('\0', i); if (z == std::string::npos) break; std::string r = ev.substr(i, z - i); if (!r.empty() && r[0] == 'F') m.sender = r.substr(1); else if (!r.empty() && r[0] == 'T') m.rcpts.push_back(r.substr(1)); i = z + 1; }
+        std::string d = st.first; size_t by = d.find("\n  by "); size_t end = by == std::string::npos ? std::string::npos : d.find('\n', by + 1); if (d.compare(0, 15, "Received: from ") == 0 && end != std::string::npos) { m.received = d.substr(0, end + 1); m.body = d.substr(end + 1); } else m.body = d; m.via_stub = true; q.push_back(m); } }
+    // a queue fault whose Z reply was lost with the daemon's early exit cannot be attributed through the replies: such packages are optional
+    if (plan->knobs.getb("real_qq_fault", false) && got.size() < M.cls.size()) {
+      size_t first_lost = M.pkg_of[got.size()]; std::vector<QMsg> keep; std::vector<size_t> keep_pkg; size_t qi = 0;
+      for (size_t j = 0; j < M.msgs.size(); j++) {
+        bool same = qi < q.size() && q[qi].sender == M.msgs[j].sender && q[qi].rcpts == M.msgs[j].rcpts && q[qi].body == M.msgs[j].body;
+        if (same || M.msg_pkg[j] < first_lost) { keep.push_back(M.msgs[j]); keep_pkg.push_back(M.msg_pkg[j]); qi++; }
+      }
+      M.msgs = keep; M.msg_pkg = keep_pkg;
+    }
+    if (q.size() > M.msgs.size()) { violate("C07.queued-without-ack", std::to_string(q.size()) + " messages committed, the reference acknowledges " + std::to_string(M.msgs.size()) + " packages; " + tr); return; }
+    if (q.size() < M.msgs.size()) { violate("C07.ack-without-queue", std::to_string(M.msgs.size()) + " packages are acknowledged, " + std::to_string(q.size()) + " messages were committed; " + tr); return; }
+    std::string proto = daemon == "qmtpd" ? "QMTP" : "QMQP";
+    for (size_t i = 0; i < q.size(); i++) {
+      const QMsg &g = q[i], &w = M.msgs[i];
+      if (g.sender != w.sender || g.rcpts != w.rcpts) { std::string a, b; for (auto &x : g.rcpts) a += "[" + printable(x, 50) + "]"; for (auto &x : w.rcpts) b += "[" + printable(x, 50) + "]";
+        violate("C07.envelope", "committed envelope F\"" + printable(g.sender, 60) + "\" " + a + " differs from the acknowledged one F\"" + printable(w.sender, 60) + "\" " + b + "; " + tr); return; }
+      if (g.body != w.body) { violate("C07.body", "committed body (" + std::to_string(g.body.size()) + " bytes) differs from the decoded acknowledged message (" + std::to_string(w.body.size()) + " bytes); " + tr); return; }
+      std::string pre = "Received: from " + safe(cf.remotehost) + " (" + (cf.have_info ? safe(cf.remoteinfo) + "@" : "") + safe(cf.remoteip) + ")\n  by " + safe(cf.local) + " with " + proto + "; ";
+      bool ok = g.received.compare(0, pre.size(), pre) == 0;
+      if (ok) { std::string date = g.received.substr(pre.size()); bool dm = false; int64_t t1 = k->clock; if (t1 - t_start > 5000) dm = date.size() > 20; else for (int64_t tt = t_start; tt <= t1 && !dm; tt++) if (date822s(tt) == date) dm = true; ok = dm; }
+      if (!ok) { violate("C07.received-field", "Received field \"" + printable(g.received, 200) + "\" is not \"" + printable(pre, 200) + "<date>\""); return; }
+      for (unsigned char c : g.received.substr(15)) if (!(isalnum(c) || strchr(".@%+/=:-[]? ()\n;", c))) { violate("C07.received-field", "unsafe byte in Received field: \"" + printable(g.received, 200) + "\""); return; }
+    }
+    k->probe("nt_checked"); k->probe("nt_replies", got.size()); k->probe("nt_committed", q.size());
+    Hash64 h; h.str(rx); res->state_hash = h.get();
+  }
+
   void finish() override {
+    if (c07 && daemon != "smtpd") { if (!daemon_fault) finish_nt(); return; }
     if (!c05 && !c07 && !c08) { res->nontrivial = !rx.empty() || !tx.empty(); if (!daemon_done) violate("C20.server-hung", daemon + " still running after the client went away"); Hash64 h9; h9.str(rx); res->state_hash = h9.get(); return; }
     if (daemon_fault) return;   // faults inside the daemon: only memory safety and "no partial message" (below) are judged elsewhere
     ModelOut M; model_smtp(cf, tx, stalls, use_stub ? qq_code : 0, qq_text, M);
